@@ -660,7 +660,10 @@ class TransverselyIsotropic(_Elastic):
 
         kt = self.kt
 
-        dtype = object if isinstance(kt, np.ndarray) else float
+        isHeterogeneous = True in [
+            isinstance(p, np.ndarray) for p in [El, Et, Gl, vl, vt]
+        ]
+        dtype = object if isHeterogeneous else float
 
         # Kelvin-Mandel compliance and stiffness matrices in the material's coordinate system.
         # L = (1, 0, 0)
